@@ -79,10 +79,11 @@ def sep_table(ra1, dec1, ra2, dec2):
 
 
 def one(c):
-    ra1 = np.array(c['ra1'], dtype='d')
-    dec1 = np.array(c['dec1'], dtype='d')
-    ra2 = np.array(c['ra2'], dtype='d')
-    dec2 = np.array(c['dec2'], dtype='d')
+    dt = c.get('dtype') or {}     # coordinate dtypes (default float64); whole-degree values for integer dtypes
+    ra1 = np.array(c['ra1'], dtype=dt.get('ra1', 'd'))
+    dec1 = np.array(c['dec1'], dtype=dt.get('dec1', 'd'))
+    ra2 = np.array(c['ra2'], dtype=dt.get('ra2', 'd'))
+    dec2 = np.array(c['dec2'], dtype=dt.get('dec2', 'd'))
     out = {'sep': sep_table(ra1, dec1, ra2, dec2)}
     kw = {}
     if c.get('chunksize') is not None:
